@@ -57,6 +57,7 @@ class ThreadWorld:
         self.views = {}
         self.reused = 0
         self.log = []
+        self.stale = {}      # id(_DummyThread) -> view, for poked threads that have ended
 
     # -- plan actions ---------------------------------------------------------------------
     def start(self, e):
@@ -109,6 +110,12 @@ class ThreadWorld:
             if time.time() > deadline:
                 raise RuntimeError('thread did not end')
             time.sleep(0.0005)
+        if rec.get('poked'):
+            for t in threading.enumerate():
+                if isinstance(t, threading._DummyThread) and t.ident == rec['real']:
+                    key = (id(t), rec['tname'])
+                    v = self.views.get(key) or ThreadView(self, t)
+                    self.stale[id(t)] = v
         rec['alive'] = False
         if self.by_real.get(rec['real']) is rec:
             del self.by_real[rec['real']]
@@ -126,6 +133,14 @@ class ThreadWorld:
         if not rec['poke_ack'].wait(10):
             raise RuntimeError('thread did not answer the poke')
         self.log.append(('poke', e['tname'], rec['sim']))
+
+    def rename(self, e):
+        """A running threading.Thread gets another name (a pool worker picking up a job)."""
+        rec = self.reg.get(e['tname'])
+        if rec is None or not rec['alive'] or rec['thread'] is None:
+            return
+        rec['thread'].name = e['name']
+        self.log.append(('rename', e['tname'], e['name']))
 
     def end_all(self):
         for rec in list(self.reg.values()):
@@ -148,12 +163,15 @@ class ThreadWorld:
             rec = self.by_real.get(t.ident)
             if isinstance(t, threading._DummyThread) and (rec is None or not rec['alive']
                                                           or not rec.get('poked')):
-                # CPython keeps the _DummyThread of an ended thread listed for ever; a stale
-                # entry of one of the world's threads is not modelled
-                if rec is None and t.ident not in sys._current_frames():
-                    continue
-                if rec is not None:
-                    continue
+                # CPython keeps the _DummyThread of an ended thread listed for ever (is_alive()
+                # stays true).  The stale entry of one of the world's ended threads is shown
+                # with the simulated ident it had - unless a live thread of the world now has
+                # that ident (a new threading.Thread replaces the entry in CPython, too)
+                v = self.stale.get(id(t))
+                if v is not None and not any(r['alive'] and r['sim'] == v.ident
+                                             for r in self.reg.values()):
+                    out.append(v)
+                continue
             # (CPython hands the stale _DummyThread of an ended thread to a new thread that got
             # the same real ident: such an object stands for whichever thread owns it now)
             key = (id(t), rec['tname']) if isinstance(t, threading._DummyThread) \
